@@ -381,7 +381,87 @@ def r16_5(ctx: Ctx):
                                f'of the evaluation chain', 'iOpt/method/')
 
 
+def _none_into_format(p) -> list:
+    """Call events on path p of the form "<literal>".format(...) in which a field with a format specification (or a
+    conversion-free alignment / width) receives None: str.format raises TypeError there."""
+    import string
+    out = []
+    for e in p.events:
+        if e.kind != 'call' or e.d['name'] != 'format':
+            continue
+        ra = e.d['recv'].single_atom() if isinstance(e.d.get('recv'), RF) else None
+        if not (isinstance(ra, tuple) and len(ra) == 2 and ra[0] == 'str' and isinstance(ra[1], str)):
+            continue
+        try:
+            fields = list(string.Formatter().parse(ra[1]))
+        except ValueError:
+            continue
+        auto = 0
+        for _lit, name, spec, conv in fields:
+            if name is None:
+                continue
+            head = name.split('.')[0].split('[')[0]
+            if head == '':
+                idx, auto = auto, auto + 1
+                val = e.d['args'][idx] if idx < len(e.d['args']) else None
+            elif head.isdigit():
+                val = e.d['args'][int(head)] if int(head) < len(e.d['args']) else None
+            else:
+                val = (e.d.get('kwargs') or {}).get(head)
+            if val is None or conv or not spec:
+                continue            # !r / !s convert first; an empty spec formats None as 'None'
+            if key_of(val) == NONE:
+                out.append((e, name, spec))
+    return out
+
+
+def r16_6(ctx: Ctx):
+    """After the handler Solve notifies the listeners (outside any try): a shipped listener that raises there turns
+    the contained failure into an exception of Solve.  Decided for one structural cause: a value that is None on the
+    failure state (a helper that falls off its end when neither stop criterion holds) formatted with a format
+    specification."""
+    rid = 'R16.6'
+    ctx.rule(rid, 'the stop notification of the shipped listeners does not raise for a structural reason on the '
+                  'failure state: no path formats None with a format specification ("{:<20}".format(None) is a '
+                  'TypeError)')
+    base = ctx.ix.find_cls('Listener')
+    if base is None:
+        ctx.fail(rid, 'Listener', 'iOpt/', 'class Listener not found', key=f'{rid}::no-listener')
+        return
+    n = 0
+    for cls in sorted(base.all_subclasses(), key=lambda c: c.qualname):
+        if not cls.module.name.startswith('iOpt.'):
+            continue
+        m = cls.methods.get('OnMethodStop')
+        if m is None:
+            continue
+        ex = ctx.explorer(raw=True, inline=lambda f, st: f.module.name.startswith(('iOpt.output_system.console',
+                                                                                   'iOpt.method.listener')),
+                          unroll=1, max_paths=6000, max_depth=6)
+        try:
+            paths = ex.explore(m)
+        except AnalysisError as err:
+            ctx.note(f'{rid}: {cls.name}.OnMethodStop not enumerated ({err}); not decided for this listener')
+            continue
+        n += 1
+        hits = []
+        for p in paths:
+            hits += _none_into_format(p)
+        if hits:
+            e, name, spec = hits[0]
+            ctx.fail(rid, e.func.short, e.loc(),
+                     f'on a path of {cls.name}.OnMethodStop the field {{{name}:{spec}}} of a format string receives '
+                     f'None (a helper fell off its end without a return): str.format raises TypeError, the stop '
+                     f'notification fails and Solve raises instead of returning the best-so-far result after an '
+                     f'objective failure', key=f'{rid}::{e.func.short}::none-formatted')
+        else:
+            ctx.ok(rid, f'{cls.name}.OnMethodStop', f'{len(paths)} paths: no None reaches a formatted field', m.loc())
+    ctx.floor(rid, 'shipped listeners whose stop notification was enumerated', n, 1)
+
+
 def check(ctx: Ctx):
+    if C.want(ctx, 'R16.6'):
+        r16_6(ctx)
     if C.want(ctx, 'R16.5'):
         r16_5(ctx)
     if C.want(ctx, 'R16.4'):
